@@ -223,7 +223,8 @@ Lemma rel1_unit_variant_null Sc n variant m : rel1 m -> rel1 (unit_variant_null 
 Proof.
   intro H. unfold unit_variant_null. destruct n; auto.
   destruct (union_named Sc variants variant) as [[d k']|]; auto.
-  destruct (fnode_at Sc k') as [[]|]; auto. apply rel1_write_varint.
+  destruct (fnode_at Sc k') as [[]|]; auto.
+  match goal with |- context [if ?c then _ else _] => destruct c end; auto. apply rel1_write_varint.
 Qed.
 Lemma rel1_named_step Sc n nm : rel1 (named_step Sc n nm).
 Proof. unfold named_step. rel1_tac. Qed.
@@ -1250,7 +1251,8 @@ Lemma np1_unit_variant_null strict Sc n variant m : np1 strict m -> np1 strict (
 Proof.
   intro H. unfold unit_variant_null. destruct n; auto.
   destruct (union_named Sc variants variant) as [[d k']|]; auto.
-  destruct (fnode_at Sc k') as [[]|]; auto. apply np1_write_varint.
+  destruct (fnode_at Sc k') as [[]|]; auto.
+  match goal with |- context [if ?c then _ else _] => destruct c end; auto. apply np1_write_varint.
 Qed.
 Lemma np1_named_step strict Sc n nm : np1 strict (named_step Sc n nm).
 Proof. unfold named_step. np1_tac. Qed.
